@@ -419,12 +419,17 @@ def run_hist(case, r):
                 r.bump("creation_failed_reported_by_create_case")
                 return
             ok = True
+            # two independently obtained handles, used alternately; every read must agree through both
+            hnd = [da, s.b.data_arrays[name]]
             for i, op in enumerate(hist):
                 last = i == len(hist) - 1
                 nv = len(r.violations)
                 before = (model.a.copy(), model.m.copy())
                 try:
-                    da = apply_op(s, name, da, model, dt, op, k + i)
+                    res = apply_op(s, name, hnd[i % 2], model, dt, op, k + i)
+                    if op[0] == "reopen":
+                        hnd = [res, s.b.data_arrays[name]]
+                    da = hnd[i % 2]
                 except Exception as e:  # noqa
                     if last:
                         r.viol("C01|%s|%s|raises-%s" % (tclass(dt), opkind(op), type(e).__name__),
@@ -435,7 +440,8 @@ def run_hist(case, r):
                     ok = False
                     break
                 r.transitions += 1
-                if not verify(r, da, model, dt, opkind(op), "in-session"):
+                if not (verify(r, da, model, dt, opkind(op), "in-session") and
+                        verify(r, hnd[(i + 1) % 2], model, dt, opkind(op), "other-handle")):
                     if not last:
                         del r.violations[nv:]
                         r.bump("pruned_after_earlier_violation")
